@@ -54,7 +54,7 @@ func checkC04(c *core.Ctx, r *core.Report) {
 		"(2) DEPENDS — the pre-computed segment statistics (SST) fast path is gated on match-all ∧ segment fully enclosed ∧ no eval/values()/list()/non-ingest statistic (shared with C03); " +
 		"(3) TABLE — the statistics file writer (writeSstToBuf) and reader agree on the version byte they write/accept; " +
 		"(7) DCBYTES — the bytes hashed into a numeric column's distinct-count sketch at ingest are the 8 value bytes of the number's encoding, the same bytes the query-time recomputation hashes; (5) FLOORSNAP — a signed integer snap of a difference to a multiple of the span lies where the difference is known non-negative; (6) USAGEJOIN — the fold of a stats command's measures into per-column usage modes never lowers an entry; " +
-		"(4) SCRATCH — the scratch map that PopulateFieldToValueFromMeasureResults fills for an eval aggregate holds exactly the measure's fields at every success return (an abstract interpretation over the facts keys ⊆ fields and fields ⊆ keys): its callers reuse the map across measures and records and take the number of result slots from len(map)."
+		"(4) SCRATCH — the scratch map that PopulateFieldToValueFromMeasureResults fills for an eval aggregate holds exactly the measure's fields at every success return (an abstract interpretation over the facts keys ⊆ fields and fields ⊆ keys): its callers reuse the map across measures and records and take the number of result slots from len(map); (8) TAGSTORE — between a store of the float tag into a union value and the store of its FloatVal, the value is not handed to a function that selects the member by the tag and its FloatVal is not read (payload first, tag second: an integer running sum widened to float is not read as 0)."
 	r.NotCovered = "any numeric result, bucket boundaries, group-key uniqueness, sparse/mixed-type group-by behaviour, sketch error, the bookkeeping of per-measure result slots beyond the scratch-map clause"
 
 	checkRunningExtremes(c, r)
